@@ -527,4 +527,71 @@ Section Clone.
         destruct (IHr _ _ (abs_kids_ext _ _ e1 _ _ Ear)) as (h4 & r' & Er). rewrite Er. eauto. }
     destruct (Hk _ _ _ Ets) as (h2 & ks' & Ek). rewrite Ek. eauto.
   Qed.
+
+  (** the walk is stable under heap growth *)
+  Lemma check_ext : forall n h e seen a s, check n h seen a = Some s -> check n (h ++ e) seen a = Some s.
+  Proof.
+    induction n as [|n IH]; intros h e seen a s H; [discriminate|].
+    rewrite check_unfold in H |- *. destruct (existsb (Nat.eqb a) seen); [discriminate|].
+    destruct (nth_error h a) as [nd|] eqn:En; [|discriminate].
+    rewrite nth_error_app1 by (apply nth_error_Some; congruence). rewrite En.
+    revert H. generalize (a :: seen) as s0. generalize (hn_kids nd) as ks.
+    induction ks as [|[k c] r IHr]; intros s0 H; cbn in H |- *; [exact H|].
+    destruct (check n h s0 c) as [s2|] eqn:Ec; [|discriminate]. rewrite (IH _ e _ _ _ Ec). now apply IHr.
+  Qed.
+
+  (** only the seen objects that live in the heap matter *)
+  Definition seq_on (h : heap) (s s' : list addr) : Prop := forall x, x < length h -> (In x s <-> In x s').
+
+  Lemma existsb_eqb_iff a seen : existsb (Nat.eqb a) seen = true <-> In a seen.
+  Proof.
+    split.
+    - intros E. apply existsb_exists in E as (x & Hx & Heq). apply Nat.eqb_eq in Heq. now subst.
+    - intros Hin. apply existsb_exists. exists a. split; [exact Hin|apply Nat.eqb_refl].
+  Qed.
+
+  Lemma check_seen_equiv : forall n h seen seen' a s,
+    check n h seen a = Some s -> seq_on h seen seen' ->
+    exists s', check n h seen' a = Some s' /\ seq_on h s s' /\ (forall x, In x s' -> In x seen' \/ x < length h).
+  Proof.
+    induction n as [|n IH]; intros h seen seen' a s H Hq; [discriminate|].
+    rewrite check_unfold in H |- *. destruct (existsb (Nat.eqb a) seen) eqn:Ex; [discriminate|].
+    destruct (nth_error h a) as [nd|] eqn:En; [|discriminate].
+    assert (La : a < length h) by (apply nth_error_Some; congruence).
+    assert (Ex' : existsb (Nat.eqb a) seen' = false).
+    { destruct (existsb (Nat.eqb a) seen') eqn:E; [|reflexivity].
+      apply existsb_eqb_iff in E. apply (Hq a La) in E. apply existsb_eqb_iff in E. congruence. }
+    rewrite Ex'.
+    assert (Hq0 : seq_on h (a :: seen) (a :: seen')).
+    { intros x Hx. cbn. specialize (Hq x Hx). tauto. }
+    assert (B0 : forall x, In x (a :: seen') -> In x seen' \/ x < length h).
+    { intros x [<-|Hx]; auto. }
+    revert H Hq0 B0. generalize (a :: seen) as s0. generalize (a :: seen') as s0'. generalize (hn_kids nd) as ks.
+    induction ks as [|[k c] r IHr]; intros s0' s0 H Hq0 B0; cbn in H |- *.
+    - injection H as <-. exists s0'. auto.
+    - destruct (check n h s0 c) as [s2|] eqn:Ec; [|discriminate].
+      destruct (IH _ _ _ _ _ Ec Hq0) as (s2' & Ec' & Hq2 & B2). rewrite Ec'.
+      apply (IHr _ _ H Hq2). intros x Hx. destruct (B2 x Hx) as [Hx0|]; auto.
+  Qed.
+
+  (** C20_common_parent: if the original is a tree (the structure check accepts it), a new
+      parent holding the original and the clone under any two positions is accepted too *)
+  Theorem clone_common_parent n h a h' a' m t s1 d k1 k2 :
+    clone n h a = Some (h', a') -> abs m h a = Some t -> check m h [] a = Some s1 ->
+    exists s, check (S m) (h' ++ [mkNode d [(k1, a); (k2, a')]]) [] (length h') = Some s.
+  Proof.
+    intros Hc Ha Hck. set (p := mkNode d [(k1, a); (k2, a')]).
+    destruct (clone_P _ _ _ _ _ Hc) as [(e & Eh & _) _].
+    assert (Lh : length h <= length h') by (rewrite Eh, app_length; lia).
+    destruct (check_seen_equiv _ _ _ [length h'] _ _ Hck) as (s1' & C1 & _ & B1).
+    { intros x Hx. cbn. split; [tauto|]. intros [<-|[]]. lia. }
+    rewrite check_unfold. cbn [existsb].
+    rewrite nth_error_app2 by apply Nat.le_refl. rewrite Nat.sub_diag. cbn [nth_error p hn_kids check_kids].
+    assert (C1' : check m (h' ++ [p]) [length h'] a = Some s1').
+    { replace (h' ++ [p]) with (h ++ (e ++ [p])) by (rewrite Eh; apply app_assoc). now apply check_ext. }
+    unfold addr in *. rewrite C1'.
+    destruct (clone_check _ _ _ _ _ Hc _ _ Ha [p] s1') as (s2 & C2 & _).
+    { intros x Hx. destruct (B1 x Hx) as [[<-|[]]|Hl]; [right; lia|now left]. }
+    unfold addr in *. rewrite C2. eauto.
+  Qed.
 End Clone.
